@@ -422,7 +422,11 @@ def make_classes():
 
     class GRunner(AsyncRunner):
         def __init__(self, ctl, interp, execute_all, interval=0):
-            super().__init__(interp, interval=interval, execute_all=execute_all)
+            # "one per cycle unless execute_all is set": when it is not asked for, the constructor's default is used
+            if execute_all:
+                super().__init__(interp, interval=interval, execute_all=True)
+            else:
+                super().__init__(interp, interval=interval)
             self.ctl = ctl
             self._unpaused = GEvent(ctl, 'unp')
             self._stop = GEvent(ctl, 'stop')
